@@ -332,45 +332,38 @@ class AnnotationsItem:
 
     def __attrs_post_init__(self) -> None:
         def translate(path: str) -> str:
-            # pylint: disable=too-many-branches
             blocks = []
-            escaping = False
-            globstar = False
-            prev_char = ""
-            for char in path:
+            index = 0
+            length = len(path)
+            while index < length:
+                char = path[index]
                 if char == "\\":
-                    if prev_char == "\\" and escaping:
-                        escaping = False
-                        blocks.append("\\\\")
-                    else:
-                        escaping = True
+                    # The next character, whatever it is, is a literal. A
+                    # trailing backslash escapes nothing.
+                    index += 1
+                    if index < length:
+                        blocks.append(re.escape(path[index]))
+                        index += 1
                 elif char == "*":
-                    if escaping:
-                        blocks.append(re.escape("*"))
-                        escaping = False
-                    elif prev_char == "*" and not globstar:
-                        globstar = True
-                        blocks.append(r".*")
-                elif char == "/":
-                    if not globstar:
-                        if prev_char == "*":
-                            blocks.append("[^/]*")
-                        blocks.append("/")
-                    escaping = False
-                else:
-                    if prev_char == "*" and not globstar:
+                    start = index
+                    while index < length and path[index] == "*":
+                        index += 1
+                    if index - start == 1:
                         blocks.append(r"[^/]*")
+                    elif index < length and path[index] == "/":
+                        # '**/' also matches zero directories.
+                        blocks.append(r"(?:.*/)?")
+                        index += 1
+                    else:
+                        blocks.append(r".*")
+                else:
                     blocks.append(re.escape(char))
-                    globstar = False
-                    escaping = False
-                prev_char = char
-            if prev_char == "*" and not globstar:
-                blocks.append(r"[^/]*")
+                    index += 1
             result = "".join(blocks)
-            return f"^({result})$"
+            return f"^({result})\\Z"
 
         self._paths_regex = re.compile(
-            "|".join(translate(path) for path in self.paths)
+            "|".join(translate(path) for path in self.paths), re.DOTALL
         )
 
     @classmethod
